@@ -1357,6 +1357,158 @@ func init() {
 	addDoc("C12", "R12l no method of a stream reader stores the value of its constructor-only root field into a position field (the root may have been delivered and released).")
 }
 
+// ---------------------------------------------------------------- a group is identified by its first child
+
+// groupIdentifiedByFirstChild: per the EDI standard (and the reader's documentation) a segment group is present iff its FIRST
+// child's segment is present; the matcher is greedy and never looks further. In package edi, every recursive descent over
+// the declaration tree that answers a bool (a method of a json-tagged declaration type that reaches itself again through a
+// call whose receiver is an element of a slice field of its own receiver) takes element 0 by a constant index, outside any
+// loop (seed C05-11: "any child up to the first mandatory one" also instantiates groups whose first segment is absent).
+func groupIdentifiedByFirstChild(c *core.Ctx, rule string, pkgs []string) {
+	c.SSA()
+	reaches := func(from, to *ssa.Function) bool {
+		seen := map[*ssa.Function]bool{}
+		var walk func(f *ssa.Function, d int) bool
+		walk = func(f *ssa.Function, d int) bool {
+			if f == nil || f.Blocks == nil || seen[f] || d > 3 {
+				return false
+			}
+			if f == to {
+				return true
+			}
+			seen[f] = true
+			for _, ci := range core.Calls(f) {
+				if walk(ci.Common().StaticCallee(), d+1) {
+					return true
+				}
+			}
+			return false
+		}
+		return walk(from, 0)
+	}
+	n := 0
+	for _, f := range c.RepoFunctions() {
+		if core.IsCLIOrSample(core.FuncPkg(f)) || !inPkgs(core.FuncPkg(f), pkgs) || f.Signature.Recv() == nil {
+			continue
+		}
+		res := f.Signature.Results()
+		if res.Len() != 1 {
+			continue
+		}
+		if bt, ok := res.At(0).Type().Underlying().(*types.Basic); !ok || bt.Kind() != types.Bool {
+			continue
+		}
+		recvT := core.NamedOf(f.Signature.Recv().Type())
+		if recvT == nil {
+			continue
+		}
+		for _, b := range f.Blocks {
+			for _, in := range b.Instrs {
+				call, ok := in.(*ssa.Call)
+				if !ok || call.Call.IsInvoke() || len(call.Call.Args) == 0 {
+					continue
+				}
+				g := call.Call.StaticCallee()
+				if g == nil || g.Signature.Recv() == nil || core.NamedOf(g.Signature.Recv().Type()) != recvT {
+					continue
+				}
+				// receiver = element of a slice field of f's receiver?
+				rv := call.Call.Args[0]
+				if u, ok := rv.(*ssa.UnOp); ok && u.Op == token.MUL {
+					rv = u.X
+				}
+				ia, ok := rv.(*ssa.IndexAddr)
+				if !ok {
+					continue
+				}
+				fp, ok := core.LoadedField(ia.X)
+				if !ok || len(fp.Path) == 0 || fp.Base != ssa.Value(f.Params[0]) {
+					continue
+				}
+				if !reaches(g, f) {
+					continue
+				}
+				n++
+				key := core.FuncKey(f) + " descends into " + fp.Path[len(fp.Path)-1].Name()
+				k, isConst := ia.Index.(*ssa.Const)
+				good := isConst && k.Value != nil && k.Value.Kind() == constant.Int && k.Int64() == 0
+				// inside a loop?
+				inLoop := false
+				for _, t := range f.Blocks {
+					for _, h := range t.Succs {
+						if h.Dominates(t) && r7naturalLoop(h, t)[b] {
+							inLoop = true
+						}
+					}
+				}
+				c.Check(good && !inLoop, rule, key, core.InstrPos(call), "element 0 by constant index, outside any loop",
+					"the recursive match over the declaration tree does not take exactly the first child (constant index 0, no loop): a group is then also recognised by a later child — no longer the documented greedy matcher (group present iff its first segment is present)")
+			}
+		}
+	}
+	// the iterative form of the same descent: `for d.isGroup() { d = d.Children[0] }` (benign 64)
+	for _, f := range c.RepoFunctions() {
+		if core.IsCLIOrSample(core.FuncPkg(f)) || !inPkgs(core.FuncPkg(f), pkgs) || f.Signature.Recv() == nil {
+			continue
+		}
+		res := f.Signature.Results()
+		if res.Len() != 1 {
+			continue
+		}
+		if bt, ok := res.At(0).Type().Underlying().(*types.Basic); !ok || bt.Kind() != types.Bool {
+			continue
+		}
+		recvT := core.NamedOf(f.Signature.Recv().Type())
+		for _, b := range f.Blocks {
+			for _, in := range b.Instrs {
+				ph, ok := in.(*ssa.Phi)
+				if !ok || recvT == nil || core.NamedOf(ph.Type()) != recvT {
+					continue
+				}
+				fromRecv := false
+				for _, e := range ph.Edges {
+					if e == ssa.Value(f.Params[0]) {
+						fromRecv = true
+					}
+				}
+				if !fromRecv {
+					continue
+				}
+				for _, e := range ph.Edges {
+					v := e
+					if u, ok := v.(*ssa.UnOp); ok && u.Op == token.MUL {
+						v = u.X
+					}
+					ia, ok := v.(*ssa.IndexAddr)
+					if !ok {
+						continue
+					}
+					fp, ok := core.LoadedField(ia.X)
+					if !ok || len(fp.Path) == 0 || fp.Base != ssa.Value(ph) {
+						continue
+					}
+					n++
+					k, isConst := ia.Index.(*ssa.Const)
+					good := isConst && k.Value != nil && k.Value.Kind() == constant.Int && k.Int64() == 0
+					c.Check(good, rule, core.FuncKey(f)+" descends into "+fp.Path[len(fp.Path)-1].Name(), ia.Pos(), "element 0 by constant index (iterative descent)",
+						"the iterative descent over the declaration tree does not step to exactly the first child (constant index 0): a group is then also recognised by a later child")
+				}
+			}
+		}
+	}
+	c.Floor(rule, 1, "first-child identification of segment groups (recursive or iterative descent)")
+	_ = n
+}
+
+func init() {
+	wrapRun("C05", func(c *core.Ctx) {
+		if c.CountRule("R05q") == 0 {
+			groupIdentifiedByFirstChild(c, "R05q", []string{"extensions/omniv21/fileformat/edi"})
+		}
+	})
+	addDoc("C05", "R05q the recursive bool match over the EDI declaration tree descends into element 0 of the child list only (constant index, no loop): a group is identified by its first child.")
+}
+
 func init() {
 	wrapRun("C18", func(c *core.Ctx) {
 		if c.CountRule("R18h") == 0 {
